@@ -258,7 +258,7 @@ pub fn shard_run(tier: &str, seed: u64, replay_case: Option<usize>, shard: Shard
                     OpKind::GetChild { parent } => Req::GetChild { parent: res(*parent) },
                     OpKind::AddSnapshot { vid, pay } => Req::AddSnapshot { vid: res(*vid), data: pay.bytes() },
                     OpKind::GetSnapshot => Req::GetSnapshot,
-                    OpKind::Resend { k } => {
+                    OpKind::ResendStale { k, .. } | OpKind::Resend { k } => {
                         if chains[c].is_empty() {
                             Req::GetSnapshot
                         } else {
